@@ -48,6 +48,13 @@ def _wcase(cap, ops, ctr=[0]):
     return 'W %d %s' % (cap, ','.join(out) or '-')
 
 
+def _wcase_fail(cap, ops, failpos):
+    """as _wcase; the operation at index failpos is made once with a sink that refuses the first write and then again"""
+    toks = _wcase(cap, ops).split(' ')[2].split(',')
+    toks = toks[:failpos] + ['x' + toks[failpos], toks[failpos]] + toks[failpos + 1:]
+    return 'W %d %s' % (cap, ','.join(toks))
+
+
 def gen_cases(tier, rng):
     cases = []
     maxcap = 3 if tier == 'quick' else 4
@@ -87,6 +94,14 @@ def gen_cases(tier, rng):
         for nops in range(1, maxops + 1):
             for seq in itertools.product(wops, repeat=nops):
                 cases.append(_wcase(cap, list(seq) + [('f',)]))
+        # a sink that fails: every operation of every short history once with a sink that refuses its first write,
+        # then repeated - nothing may be lost, nothing written twice
+        fops = [('a', l) for l in range(0, cap + 2)] + [('f',)]
+        for nops in range(1, min(maxops, 3) + 1):
+            for seq in itertools.product(fops, repeat=nops):
+                for fp in range(nops):
+                    cases.append(_wcase_fail(cap, list(seq) + [('f',)], fp))
+                cases.append(_wcase_fail(cap, list(seq) + [('f',)], nops))
         # the same histories with the data handed over through pointers to wider types (length in bytes)
         for ptr in 'bcd':
             pops = [(ptr, l) for l in range(0, cap + 3)] + [('f',)]
@@ -212,6 +227,12 @@ def spec_check(case, ir, mr):
     if len(prop) != len(ops):
         return 'number of results differs from number of operations'
     for o, r in zip(ops, prop):
+        if o[0] == 'x':
+            # the sink refuses the first write of this operation: either the operation fails as a whole and leaves
+            # everything as it was (it will be repeated), or it did not need the sink and succeeds
+            if r == 'E:runtime_error':
+                continue
+            o = o[1:]
         if o[0] == 'n':
             l = int(o[1:])
             if l == 0 and not r.startswith('ok:'):
@@ -255,7 +276,8 @@ CLAIM = {
     'text': 'Coq theorems (Properties_C19.v) over an executable model of ReadBuffer/WriteBuffer: for every capacity, '
             'every history of get/append/flush and every chunking of the source the bytes handed out / delivered to '
             'the sink are the stream in order, no access leaves the internal buffer, oversized reads are refused and '
-            'oversized writes passed through. The model is tied to the code by a correspondence check (exhaustive for '
+            'oversized writes passed through; with a sink that throws, the operations it refused leave no trace and can be '
+            'repeated (C19_failing_sink_effective_operations, C19_failed_operation_can_be_repeated). The model is tied to the code by a correspondence check (exhaustive for '
             'small capacities, ASan+UBSan build of the real templates).',
     'note': 'trusted: Coq kernel, extraction (ExtrOcamlBasic), the hand-written model (validated by correspondence on '
             'every run), scripted source/sink of the harness; memory safety below the model (allocator) only through '
